@@ -21,7 +21,7 @@ import (
 func validateNewBody(body Body) error {
 	// Reject a body that contains the "_removed" property, this means that the user
 	// is trying to update a document they do not have read access to.
-	if body[BodyRemoved] != nil {
+	if _, ok := body[BodyRemoved]; ok {
 		return base.HTTPErrorf(http.StatusNotFound, "Document revision is not accessible")
 	}
 
